@@ -56,7 +56,7 @@ try:
     demo_cmd = meta["demo_run"].replace(meta.get("_wt", "\0"), wt)
     # strip a leading "cd ... &&" the proposer may have written
     import re as _re
-    demo_cmd = _re.sub(r"^\s*export [^;]*;\s*", "", demo_cmd)
+    demo_cmd = _re.sub(r"^\s*export [^;&]*(;|&&)\s*", "", demo_cmd)
     if "&&" in demo_cmd and demo_cmd.strip().startswith("cd "):
         demo_cmd = demo_cmd.split("&&", 1)[1].strip()
     if "-count=1" not in demo_cmd:
